@@ -1,6 +1,9 @@
 """C06 — tank volume integration and level limits: update_tank_heads, update_network_previous_values,
-Tank.get_volume / level, WNTRSimulator._get_all_tank_controls (cylindrical tanks under proof; the volume-curve
-branch depends on np.interp and is a bounded stand-in)."""
+Tank.get_volume / level, TankLevelCondition.evaluate, WNTRSimulator._get_all_tank_controls.
+Cylindrical tanks: for every diameter. Volume-curve tanks: for a curve of three points with symbolic, strictly increasing
+coordinates (np.interp modelled as documented: piecewise linear, end values held; the repository's _interp_extend is
+interpreted from its source) - the volume identity, get_volume and the partial-step bound of the level controls; curves
+with more points are covered by the bounded stand-in only."""
 import math
 import types
 
@@ -61,6 +64,145 @@ def _update_heads_case():
                      cx.t(cx.inputs["ph2"]) * (PI * cx.t(cx.inputs["D2"]) * cx.t(cx.inputs["D2"]) / 4) + cx.t(cx.inputs["q2"]) * dt)]
         cx.ensure(post)
     return Case("cylindrical", build, crosscheck=False)
+
+
+# ---------------------------------------------------------------------------- volume-curve tanks (three-point curve, symbolic coordinates)
+
+class _CurveReg(NativeModel):
+    def __init__(self, curve):
+        self.curve = curve
+
+    def __getitem__(self, k):
+        return self.curve
+
+    def remove_usage(self, *a):
+        pass
+
+    def add_usage(self, *a):
+        pass
+
+
+class _Arr2(NativeModel):
+    """np.array(list of (x, y)): a[:, 0] / a[:, 1] are the columns"""
+
+    def __init__(self, pts):
+        self.pts = pts
+
+    def __getitem__(self, idx):
+        assert isinstance(idx, tuple) and idx[0] == slice(None) and idx[1] in (0, 1), idx
+        return [p_[idx[1]] for p_ in self.pts]
+
+
+def _pl(x, xs, ys, extend):
+    """specification: piecewise-linear interpolation through (xs, ys); beyond the ends the first / last segment is extended
+    (extend=True) or the end value is held (np.interp)."""
+    n = len(xs)
+    seg = lambda i: ys[i] + (x - xs[i]) * (ys[i + 1] - ys[i]) / (xs[i + 1] - xs[i])
+    t = seg(n - 2) if extend else ys[n - 1]
+    for i in reversed(range(n - 1)):
+        t = z3.If(x <= xs[i + 1], seg(i), t)
+    first = seg(0) if extend else ys[0]
+    return z3.If(x < xs[0], first, t)
+
+
+def _vol_models():
+    import numpy as np
+    m = library.build_models()
+    m.register(np.array, lambda interp, args, kw: _Arr2([tuple(p_) for p_ in args[0]]) if isinstance(args[0], list) and args[0] and isinstance(args[0][0], tuple) else interp._native(np.array, args, kw),
+               trusted="np.array(points)[:, k] is the k-th coordinate of the points")
+    m.register(np.interp, lambda interp, args, kw: SV(_pl(library.as_real(args[0]), [library.as_real(v) for v in args[1]], [library.as_real(v) for v in args[2]], False), "real"),
+               trusted="np.interp is piecewise-linear interpolation holding the end values (numpy documentation)")
+    m.register(np.ndim, lambda interp, args, kw: 0 if isinstance(args[0], SV) else np.ndim(args[0]))
+    return m
+
+
+def _curve_points(cx):
+    xs = [cx.real("level%d" % i) for i in range(3)]
+    ys = [cx.real("volume%d" % i) for i in range(3)]
+    cx.assume(cx.t(xs[0]) < cx.t(xs[1]), cx.t(xs[1]) < cx.t(xs[2]), cx.t(ys[0]) < cx.t(ys[1]), cx.t(ys[1]) < cx.t(ys[2]))    # is_valid(): strictly increasing table
+    return xs, ys
+
+
+def _update_heads_curve_case():
+    def build(cx):
+        xs, ys = _curve_points(cx)
+        q, ph, h, elev = cx.real("q"), cx.real("prev_head"), cx.real("head"), cx.real("elev")
+        t, pt = cx.int("sim_time"), cx.int("prev_sim_time")
+        cx.assume(cx.t(pt) < cx.t(t))
+        curve = types.SimpleNamespace(points=[(a, b) for a, b in zip(xs, ys)])
+        tank = _tank(cx, _demand=q, _diameter=cx.real("D"), _prev_head=ph, _head=h, _elevation=elev, _vol_curve_name="vc", _curve_reg=_CurveReg(curve))
+        wn = WN2(sim_time=t, prev_sim_time=pt)
+        wn.declare_node("T", tank)
+        cx.target(hyd.update_tank_heads, wn)
+
+        def post(out):
+            if not out.returned:
+                return []
+            X, Y = [cx.t(v) for v in xs], [cx.t(v) for v in ys]
+            newl = library.as_real(tank.fields["_head"]) - cx.t(elev)
+            oldl = cx.t(ph) - cx.t(elev)
+            dt = z3.ToReal(cx.t(t) - cx.t(pt))
+            V = lambda lvl: _pl(lvl, X, Y, True)
+            return [("volume_through_the_curve_changes_by_net_inflow_times_elapsed_time", V(newl) - V(oldl) == cx.t(q) * dt)]
+        cx.ensure(post)
+    return Case("volume_curve_three_points", build, crosscheck=False)
+
+
+def _get_volume_curve_case():
+    def build(cx):
+        xs, ys = _curve_points(cx)
+        lvl = cx.real("level")
+        curve = types.SimpleNamespace(points=[(a, b) for a, b in zip(xs, ys)])
+        tank = _tank(cx, _diameter=cx.real("D"), _head=cx.real("head"), _elevation=cx.real("elev"), _vol_curve_name="vc", _curve_reg=_CurveReg(curve))
+        cx.target(Tank.get_volume, tank, lvl)
+
+        def post(out):
+            if not out.returned:
+                return []
+            X, Y = [cx.t(v) for v in xs], [cx.t(v) for v in ys]
+            return [("volume_is_the_curve_at_that_level_with_the_end_segments_extended", library.as_real(out.value) == _pl(cx.t(lvl), X, Y, True))]
+        cx.ensure(post)
+    return Case("volume_curve_three_points", build, crosscheck=False)
+
+
+def _tank_level_curve_case(rel, attr):
+    """TankLevelCondition.evaluate for a volume-curve tank. Precondition = ensures of update_tank_heads (volume curve): the stored volume
+    moved from V(last) to V(cur) by q * dt."""
+    def build(cx):
+        xs, ys = _curve_points(cx)
+        last, cur, th, q, elev = cx.real("last_level"), cx.real("cur_level"), cx.real("threshold_level"), cx.real("q"), cx.real("elev")
+        dt = cx.int("dt")
+        X, Y = [cx.t(v) for v in xs], [cx.t(v) for v in ys]
+        V = lambda lvl: _pl(lvl, X, Y, True)
+        cx.assume(cx.t(dt) > 0, V(cx.t(cur)) - V(cx.t(last)) == cx.t(q) * z3.ToReal(cx.t(dt)))
+        import ast as _ast
+        off = elev if attr == "head" else 0.0          # the compared attribute is head (= level + elevation) or level
+        add = lambda a: cx.interp.binop(_ast.Add, a, off)
+        curve = types.SimpleNamespace(points=[(a, b) for a, b in zip(xs, ys)])
+        tank = _tank(cx, _head=cx.interp.binop(_ast.Add, cur, elev), _elevation=elev, _demand=q, _diameter=cx.real("D"), _vol_curve_name="vc", _curve_reg=_CurveReg(curve))
+        cond = cx.obj(C.TankLevelCondition, _source_obj=tank, _source_attr=attr, _relation=rel, _threshold=add(th), _backtrack=0, _last_value=add(last))
+        cx.target(C.TankLevelCondition.evaluate, cond)
+
+        def post(out):
+            if not out.returned:
+                return []
+            CUR, LAST, TH, Q, DT = cx.t(cur), cx.t(last), cx.t(th), cx.t(q), cx.t(dt)
+            up = rel in (Comparison.ge, Comparison.gt)
+            holds = (CUR >= TH) if up else (CUR <= TH)
+            held = (LAST >= TH) if up else (LAST <= TH)
+            Bk = library.as_int(cx.interp.getattr(cond, "_backtrack"))
+            crossing = z3.And(holds, z3.Not(held), Q != 0)
+            landed = V(CUR) - z3.ToReal(Bk) * Q            # stored volume at (t - backtrack)
+            absq = z3.If(Q >= 0, Q, -Q)
+            zb = lambda v: library.truth(v) if isinstance(v, SV) else z3.BoolVal(bool(v))
+            return [("true_iff_threshold_reached", zb(out.value) == holds),
+                    ("no_backtrack_unless_threshold_first_reached_in_this_step", z3.Implies(z3.Not(crossing), Bk == 0)),
+                    ("backtrack_within_step", z3.Implies(crossing, z3.And(Bk >= 0, Bk < DT))),
+                    ("partial_step_lands_on_threshold_side_of_the_stored_volume", z3.Implies(crossing, (landed >= V(TH)) if up else (landed <= V(TH)))),
+                    ("partial_step_lands_within_one_second_of_flow_past_threshold",
+                     z3.Implies(crossing, z3.If(landed >= V(TH), landed - V(TH), V(TH) - landed) < absq))]
+        cx.ensure(post)
+    return Case("volume_curve,rel=%s,attr=%s" % (rel.name, attr), build, crosscheck=False)
 
 
 def _prev_values_case():
@@ -238,8 +380,17 @@ class _WNT(NativeModel):
 
 CONTRACTS = [
     Contract("wntr.sim.hydraulics:update_tank_heads", P + ["C10"], [_update_heads_case()],
-             note="cylindrical tanks (vol_curve is None); the volume-curve branch (np.interp) is a bounded stand-in",
+             note="cylindrical tanks (vol_curve is None); the volume-curve branch has its own contract below",
              trusted=["RegInv (C14): wn.tanks() enumerates exactly the tanks", "CurveRegistry lookup of None is None"]),
+    Contract("wntr.sim.hydraulics:update_tank_heads (volume curve)", P, [_update_heads_curve_case()], models=_vol_models,
+             note="a volume curve of three points with symbolic, strictly increasing coordinates; np.interp modelled as documented; _interp_extend interpreted",
+             trusted=["np.interp (numpy documentation)", "RegInv (C14)"]),
+    Contract("wntr.network.elements:Tank.get_volume (volume curve)", P + ["C20"], [_get_volume_curve_case()], models=_vol_models,
+             note="three-point curve, symbolic coordinates", trusted=["np.interp (numpy documentation)"]),
+    Contract("wntr.network.controls:TankLevelCondition.evaluate (volume curve)", P + ["C05"],
+             [_tank_level_curve_case(r, a) for r in (Comparison.ge, Comparison.gt, Comparison.le, Comparison.lt) for a in ("level", "head")], models=_vol_models,
+             note="three-point curve, symbolic coordinates; the 'pressure' attribute raises NotImplementedError for volume-curve tanks by design",
+             trusted=["np.interp (numpy documentation)", "np.round(x, 10) is the identity (float == R)"]),
     Contract("wntr.sim.hydraulics:update_network_previous_values", P + ["C10", "C16"], [_prev_values_case()]),
     Contract("wntr.network.elements:Tank.get_volume", P, [_get_volume_case(True), _get_volume_case(False)]),
     Contract("wntr.network.elements:Tank.init_level/level", P + ["C11"], [_init_level_case()], interpret_always=(_set_init_level,)),
